@@ -90,6 +90,7 @@ impl Mesh1D<f64, f64> {
     /// Integrate a given variable over the domain (trapezium rule)
     #[inline]
     pub fn trapezium(&self, var: usize ) -> f64 {
+        if var >= self.nvars { panic!( "Mesh1D trapezium: index larger than # variables." ); }
         let mut sum: f64 = 0.0;
         for node in 0..self.nodes.size()-1 {
             let dx = self.nodes[ node + 1 ] - self.nodes[ node ];
